@@ -362,6 +362,17 @@ func (fr *Frame) applyContract(ct *Contract, sig *types.Signature, invoke bool, 
 		}()
 		return ev.evalBool(cl.Expr)
 	}
+	// views: derived parameters evaluated in the pre-state
+	pt := map[string]types.Type{}
+	for i, n := range names {
+		pt[n] = args[i].T
+	}
+	for _, vw := range ct.Views {
+		ev := &Env{fx: fx, vars: vars, pre: st, post: st, cur: st, pkg: pkg}
+		v := ev.eval(vw.Expr)
+		vars[vw.Name] = v
+		pt[vw.Name] = v.T
+	}
 	// 1. preconditions
 	for _, cl := range ct.Requires {
 		t := evalIn(cl, st, st, nil)
@@ -376,10 +387,6 @@ func (fr *Frame) applyContract(ct *Contract, sig *types.Signature, invoke bool, 
 	na := fx.freshComp("G|alloc")
 	fx.assert("(>= " + na + " " + allocPre + ")")
 	st.set("G|alloc", na)
-	pt := map[string]types.Type{}
-	for i, n := range names {
-		pt[n] = args[i].T
-	}
 	for _, m := range ct.Modifies {
 		fr.havocMod(m, pt, vars, pre, st, allocPre)
 	}
